@@ -1051,6 +1051,7 @@ pub fn handle(st: &mut State, line: &str) -> String {
             "TLS" => crate::net::tls_cell(st, &mut t),
             "TLSPLAIN" => crate::net::tls_plain(st, &mut t),
             "TLSSNI" => crate::net::tls_sni(st, &mut t),
+            "TLSSWAP" => crate::net::tls_swap(st, &mut t),
             "NETAGED" => crate::net::aged(st, &mut t),
             "TLSROT" => crate::net::tls_rotate(st, &mut t),
             "TLSHIST" => crate::net::tls_history(st, &mut t),
